@@ -27,6 +27,7 @@ RULE = (
     "older than its source's latest insertion; distinct by the op sequence."
 )
 SHARDS = {"quick": 8, "thorough": 16}
+HANG_IS_VIOLATION = True  # a decision procedure / planning loop that does not return is the property failing
 
 
 def solve(constraints, events):
